@@ -335,6 +335,45 @@ def reuse_with_delays(ctx, rng, n):
         ctx.nontriv(("reuse", dtype, len(dprod)))
 
 
+def sampler_history(ctx, rng):
+    """the outcome of a seeded delay simulation does not depend on which distributions were sampled earlier in the process:
+    a gamma-delay model simulated right after another gamma-delay model with the same shape and another scale, and again
+    after draws from a gamma with another shape, gives the same trajectory; a gamma draw scales with its scale argument."""
+    from bioscrape.types import Model
+    from bioscrape.random import py_seed_random, py_gamma_rv, py_normal_rv
+    T = np.linspace(0, 6.0, 61)
+
+    def model(theta):
+        return Model(species=["A", "B"], parameters={"k": 2.0, "gk": 2.5, "th": theta},
+                     reactions=[(["A"], [], "massaction", {"k": "k"}, "gamma", [], ["B"], {"k": "gk", "theta": "th"})],
+                     initial_condition_dict={"A": 25, "B": 0})
+    for th1, th2 in ((0.2, 1.2), (1.0, 0.1)):
+        seed = rng.randint(1, 10**6)
+        case = {"scenario": "gamma delays with one shape and two scales, one after the other", "scales": [th1, th2], "seed": seed}
+        ctx.begin_case(case)
+        simulate_by_name(model(th1), T, seed, "delay")
+        a = simulate_by_name(model(th2), T, seed, "delay")
+        py_seed_random(1); [py_gamma_rv(7.0, 1.0) for _ in range(3)]; [py_normal_rv(0.0, 1.0) for _ in range(3)]
+        b = simulate_by_name(model(th2), T, seed, "delay")
+        M = model(th1)
+        simulate_by_name(M, T, seed, "delay")
+        M.set_parameter("th", th2)
+        c = simulate_by_name(M, T, seed, "delay")
+        ctx.evaluated()
+        for col in a:
+            if not (np.array_equal(a[col], b[col]) and np.array_equal(c[col], b[col])):
+                ctx.violation("history-dependence/sampler", "a gamma-delay model (scale %g) simulated after one with the same shape and scale %g differs (column %s) from the same "
+                              "model and seed simulated after other draws" % (th2, th1, col), dict(case, column=col, after_same_shape=a[col][:12].tolist(),
+                              after_set_parameter=c[col][:12].tolist(), after_other_draws=b[col][:12].tolist()))
+                return
+        py_seed_random(seed); g1 = py_gamma_rv(2.5, 0.7)
+        py_seed_random(seed); g2 = py_gamma_rv(2.5, 1.4)
+        if abs(g2 - 2 * g1) > 1e-12 * abs(g2):
+            ctx.violation("history-dependence/sampler", "gamma(2.5, scale 1.4) from seed %d is %r, twice the draw with scale 0.7 is %r" % (seed, g2, 2 * g1), case)
+            return
+        ctx.count("sampler_history_cases")
+
+
 def run(ctx):
     rng = ctx.rng
     n = 120 if ctx.quick() else 3000
@@ -342,6 +381,7 @@ def run(ctx):
         history_case(ctx, gen_history(rng, 25 if ctx.quick() else 40))
     stale_interface(ctx, rng)
     reuse_with_delays(ctx, rng, 12 if ctx.quick() else 200)
+    sampler_history(ctx, rng)
     # lineage models are models too: built one rule / event at a time (with initialisations and runs in between) they behave
     # like the same definition built at once (the scenario is C19's; its containers are the LineageModel program above)
     from props import C19
